@@ -4,7 +4,8 @@
  1. MC      Version_MC: (a) all pairs over (0..2)^3, the operators as written
             against Lex; (b) every build case of the tier's plans, the
             transcription of _diff/build/organize against the reference
- 2. GEN     Version_Gen prints the very same inputs as JSON
+ 2. GEN     Version_Gen prints the very same inputs as JSON (same TLC run as 1:
+            Emit is evaluated once per seed state next to the invariants)
  3. CODE    harness/version_h.py evaluates the real dawgie.Version operators
             and runs the real version.current + schedule.build (persisted tables
             supplied directly, and in thorough also through a real shelve
@@ -35,6 +36,7 @@ BATCHES = {
     ],
 }
 
+
 def unprint(res, tag):
     '''PrintT(<<"TAG", ToJson(x)>>) lines -> python objects (fast path for long lines)'''
     pre = '<<"' + tag + '", '
@@ -56,8 +58,13 @@ def mcgen(chk, name, plan, classpairs):
         out_file=os.path.join(chk.work, f'{name}.out'),
     )
     pairs, groups = unprint(res, 'PAIRS'), unprint(res, 'GROUP')
+    if res.out.count('<<"PAIRS", ') != len(pairs) or res.out.count('<<"GROUP", ') != len(groups):
+        raise core.Machinery(f'{name}: exported lines are damaged (interleaved output)')
     res.out = ''
     res.prints = []
+    # the worker threads print in any order; job numbering must not depend on it
+    pairs.sort(key=lambda g: (g['ca'], g['cb'], g['a']))
+    groups.sort(key=lambda g: json.dumps([g['eng'], len(g['cases']), g['cases'][0]], sort_keys=True))
     return pairs, groups
 
 
@@ -126,23 +133,28 @@ def run_and_validate(chk, pid, jobs, name, stats):
             chk.drift_samples.append({'trace': r[1], 'line': r[2], 'ev': r[3], 'input': describe(byid[r[1]], r[2])[0]})
     seen = set()
     for _tag, tid, line, ev, bad in rows['CLAUSE']:
-        if (tid, line) in seen:
-            continue
-        seen.add((tid, line))
-        sig, detail = describe(byid[tid], line)
-        for clause in sorted(bad['set']):
+        for clause in bad['set']:
+            if (tid, line, clause) in seen:
+                continue
+            seen.add((tid, line, clause))
             if clause.startswith(pid + '.'):
+                sig, detail = describe(byid[tid], line)
                 chk.add_violation(clause, sig, dict(detail, trace=tid, line=line, event=ev), {'job': single(byid[tid], line), 'line': 1})
+    nrows = len(seen)
     seen = set()
+    nfail = 0
     for _tag, tid, part, s in rows['STAT']:
         if tid in seen:
             continue
         seen.add(tid)
         acc = stats.setdefault(part, [0, 0, 0, 0, 0])
-        for i, v in enumerate(s):
+        for i, v in enumerate(s[:5]):
             acc[i] += v
+        nfail += s[5]
     if len(seen) != len(jobs):
         raise core.Machinery(f'{name}: {len(seen)} trace summaries for {len(jobs)} traces')
+    if nfail != nrows:
+        raise core.Machinery(f'{name}: TLC counted {nfail} failing clauses but {nrows} were reported (lost output rows)')
     return rows
 
 
@@ -241,6 +253,7 @@ def run_selftest(chk, pid):
         for m in MUTANTS[part]:
             os.environ['VERIF_MUTANT'] = m
             before = len(chk.violations)
+            drift = (chk.drift, list(chk.drift_samples))
             try:
                 run_and_validate(chk, pid, jobs, 'mutant_' + m, {})
             finally:
@@ -251,6 +264,7 @@ def run_selftest(chk, pid):
             if not got:
                 survivors.append(m)
             del chk.violations[before:]
+            chk.drift, chk.drift_samples = drift  # drift of a mutant is expected, not a property of the tree
     # and the unchanged code passes on the same inputs
     run_and_validate(chk, pid, pjobs + bjobs + hjobs, 'unmutated', {})
     chk.counters['mutants'] = killed
